@@ -267,6 +267,17 @@ VARIANTS = [
     V("twin: NaN membership through a named mask and func='max' of the mask", ("C01", "C20"), "", "aggregate_npg.py",
       'hasnan = aggregate(group_idx, np.isnan(array), axis=axis, func="any", size=size, fill_value=False)',
       'isn = np.isnan(array)\n        hasnan = aggregate(group_idx, isn, axis=axis, func="max", size=size, fill_value=False).astype(bool)', expect="silent"),
+    V("scan pre-op stores the placeholder label of a zero-length block as a code", ("C10",), "R-SCANEMPTY", "core.py",
+      '    if inp.group_idx.size == 0:\n        # a zero-length block has seen no group',
+      '    if False:\n        # a zero-length block has seen no group', must_mention="placeholder"),
+    V("scan state combiner reduces possibly empty codes without an identity", ("C10",), "R-SCANEMPTY", "aggregations.py",
+      'right.group_idx.max(initial=-1) + 1', 'right.group_idx.max() + 1', must_mention="identity"),
+    V("chunk_scan hands one-member blocks on unscanned", ("C10",), "R-KINDMISSING", "core.py",
+      '    if inp.group_idx.size == 0:\n        # a zero-length block: nothing to scan',
+      '    if inp.array.shape[axis] <= 1:\n        # a zero-length block: nothing to scan', must_mention="without the scan kernel"),
+    V("twin: emptiness guards of the scan written with len() / shape", ("C10",), "", "core.py",
+      '    if inp.group_idx.size == 0:\n        # a zero-length block: nothing to scan',
+      '    if inp.array.shape[axis] == 0:\n        # a zero-length block: nothing to scan', expect="silent"),
     V("dtype promotion memoised with an untyped key", ("C14",), "R-MEMO", "xrdtypes.py", '        dtype = np.result_type(dtype, fill_value)\n    return dtype\n',
       '        dtype = _promote_for_fill_value(dtype, fill_value)\n    return dtype\n\n\n@functools.lru_cache\ndef _promote_for_fill_value(dtype: np.dtype, fill_value) -> np.dtype:\n    return np.result_type(dtype, fill_value)\n', must_mention="typed"),
     V("twin: dtype promotion memoised with typed=True", ("C14",), "", "xrdtypes.py", '        dtype = np.result_type(dtype, fill_value)\n    return dtype\n',
